@@ -55,8 +55,8 @@ def shape(c, a, getter, detail):
         return "legacy-header"
     if b"\\b" in b:
         return "escape-b"
-    if b"\\\n" in b or b"\\\r\n" in b:
-        return "continuation"
+    if re.search(rb"\\\r?\n[ \t]", b):
+        return "continuation"          # a continuation line that starts with blanks (the known deviation)
     if a["lastimplicit"]:
         return "implicit-key"
     if getter in ("int", "bool") and a["string"]["kind"] == "ok":
@@ -71,7 +71,7 @@ def shape(c, a, getter, detail):
             if d[-1:].lower() in (b"k", b"m", b"g"):
                 return "unit-suffix"
             return "magnitude"
-    if b'"' in b:
+    if re.search(rb'"[ \t]', b):
         return "blank-after-empty-quotes"
     return "other"
 
@@ -202,9 +202,9 @@ def events_of(c, g):
 
 def run(ctx):
     binary = ctx.build("vh-c27")
-    plan = [("value", 4, "FALSE"), ("struct", 4, "FALSE"), ("typed", 3, "FALSE")]
+    plan = [("value", 4, "FALSE"), ("struct", 4, "FALSE"), ("typed", 3, "FALSE"), ("cont", 4, "FALSE")]
     if ctx.thorough:
-        plan = [("value", 5, "FALSE"), ("value", 3, "TRUE"), ("struct", 4, "FALSE"), ("struct", 3, "TRUE"), ("typed", 3, "TRUE"), ("typed", 4, "FALSE")]
+        plan = [("value", 5, "FALSE"), ("value", 3, "TRUE"), ("struct", 4, "FALSE"), ("struct", 3, "TRUE"), ("typed", 3, "TRUE"), ("typed", 4, "FALSE"), ("cont", 5, "FALSE")]
     cases, typed, seen = [], [], set()
     for mode, mt, wide in plan:
         for c in ctx.tlc_gen("config", "ConfigValues_Gen", consts={"MaxToks": mt, "Mode": '"%s"' % mode, "Wide": wide}, workers=6):
